@@ -297,6 +297,8 @@ def canon_json(x) -> str:
 def err_class(e: BaseException) -> str:
     """map exceptions of the real code to the small enum the model uses"""
     n = type(e).__name__
+    if n == "VisitError" and getattr(e, "orig_exc", None) is not None:
+        n = type(e.orig_exc).__name__
     return {
         "DecayNotFound": "DecayNotFound",
         "UnexpectedCharacters": "ParseError",
